@@ -203,18 +203,19 @@ type death struct {
 }
 
 type aggregate struct {
-	mu        sync.Mutex
-	stats     Stats
-	found     []*Found
-	enumFound []*EnumFound
-	samples   []*Found
-	deaths    []death
-	errs      []string
-	warnings  []string
-	enum      EnumResult
-	items     int
-	perFamily map[string]*Stats
-	scenarios int
+	mu          sync.Mutex
+	stats       Stats
+	found       []*Found
+	enumFound   []*EnumFound
+	samples     []*Found
+	deaths      []death
+	cappedNames []string
+	errs        []string
+	warnings    []string
+	enum        EnumResult
+	items       int
+	perFamily   map[string]*Stats
+	scenarios   int
 }
 
 func coordinate(prop, tier string) int {
@@ -346,6 +347,9 @@ func (a *aggregate) merge(it *WorkItem, r *WorkResult) {
 	}
 	a.scenarios++
 	a.stats.add(&r.Stats)
+	if r.Stats.Capped && it.Scenario != nil {
+		a.cappedNames = append(a.cappedNames, fmt.Sprintf("%s (bound %d requested, %d executions in %ds)", it.Scenario.Name, it.Opts.Bound, r.Stats.Executions, r.Stats.WallMS/1000))
+	}
 	if it.Scenario != nil {
 		fs := a.perFamily[it.Scenario.Family]
 		if fs == nil {
@@ -471,6 +475,11 @@ func report(pd *PropDef, tier string, agg *aggregate, nItems int, wall time.Dura
 		cov["outcomes_distinct"] = agg.stats.EndStates
 		cov["diverged"] = agg.stats.Diverged
 		cov["capped"] = agg.stats.Capped
+		if len(agg.cappedNames) > 0 {
+			sort.Strings(agg.cappedNames)
+			cov["capped_scenarios"] = agg.cappedNames
+			cov["capped_note"] = "these scenarios hit their wall-clock cap: they were explored depth-first in deviation order up to the cap and are NOT covered up to the requested bound; every other scenario was covered completely up to its bound"
+		}
 		fam := map[string]any{}
 		for k, s := range agg.perFamily {
 			fam[k] = map[string]any{"executions": s.Executions, "states": s.States, "transitions": s.Transitions, "end_states": s.EndStates}
